@@ -227,3 +227,63 @@ def split_trace(path, maxlines):
     if cur:
         cur.close()
     return parts
+
+
+def gen_sharded(ck, module, base, shards, extra_env=None, timeout=1800):
+    """Run a Gen_* exporter in `shards` parallel TLC processes; returns file list."""
+    files = [os.path.join(rundir(), "%s_%d.ndjson" % (base, i)) for i in range(shards)]
+    jobs = []
+    for i, f in enumerate(files):
+        env = {"OUT": f, "SHARD": i, "SHARDS": shards}
+        if extra_env:
+            env.update(extra_env)
+        jobs.append(dict(module=module, env=env, timeout=timeout, xmx="2g"))
+    rs = vlib.tlc_parallel(jobs)
+    ck.tlc_runs.append({"module": module, "shards": shards, "wall_s": round(max(r.wall for r in rs), 2)})
+    return files
+
+
+def replay_files(cmd, files, extra=None, jit=False, par=8):
+    """Run `gbv <cmd> --cases f` for each file concurrently; returns all JSON records."""
+    from concurrent.futures import ThreadPoolExecutor
+    def one(f):
+        return gbv([cmd, "--cases", f] + (extra or []), jit=jit)
+    vlib.build_harness(jit)
+    with ThreadPoolExecutor(max_workers=par) as ex:
+        outs = list(ex.map(one, files))
+    recs = []
+    for o in outs:
+        recs.extend(o)
+    return recs
+
+
+# ------------------------------------------------------------------- C07
+@prop("C07")
+def c07(ck):
+    ck.rule = ("complete dispatch space of Irq.tla: IF(32) x IE(32) x IME(3) x run state(3) x 15 stack-pointer classes "
+               "(work RAM, 0/1/2, 0xFF10/0xFF11, ROM, VRAM, echo, OAM, unused, HRAM, 0xFFFF) x 4 PC values, exported by TLC "
+               "and replayed through Core::handle_interrupt and (halted/stopped states) Core::update; non-trivial = a case "
+               "with a pending enabled interrupt")
+    mc = tlc("MC_Irq", workers=12, coverage=True, timeout=1800)
+    ck.add_tlc("MC_Irq", mc)
+    ck.require_coverage(mc, ["Check"])
+    files = gen_sharded(ck, "Gen_Irq", "irq", 16)
+    recs = replay_files("irq", files)
+    summ = [r for r in recs if r.get("kind") == "summary"]
+    total = sum(s["cases"] for s in summ)
+    if len(summ) != 16 or total != 552960:
+        raise ToolError("dispatch replay incomplete: %d summaries, %d cases" % (len(summ), total))
+    ck.count(sum(s["executions"] for s in summ))
+    ck.traces += total
+    ck.extra["via_update"] = sum(s["via_update"] for s in summ)
+    ck.exhaustive = True
+    # non-trivial: pending & enabled-in-IE nonzero: 32*32 pairs minus those with IF&IE = 0 (3^5 = 243)
+    ck.nontrivial_count = (1024 - 243) * 9 * 15 * 4
+    first = vlib.read_ndjson(files[3])[200:202]
+    for c in first:
+        ck.sample(c)
+    for m in recs:
+        if m.get("kind") == "mismatch":
+            ck.mismatch({"kind": "dispatch", "path": m["path"], "fields": m["fields"], "case": m["case"],
+                         "obs": m["obs"], "obs_cyc": m["obs_cyc"], "obs_wr": m["obs_wr"]},
+                        "dispatch-%s-%s-sp%d" % (m["path"], "-".join(m["fields"]), m["case"]["pre"]["sp"]))
